@@ -207,27 +207,40 @@ class ConcatRemoveChildren(Contract):
     bounded_scope = "groups of 3 holes, requests naming 1-2 held holes and optionally a stranger (concrete list, abstract elements)"
 
     def cases(self):
-        return [((0,), False), ((1,), True), ((0, 2), False), ((2, 1), True), ((), True)]
+        return [((0,), False), ((1,), True), ((0, 2), False), ((2, 1), True), ((), True), ("plain-data", False)]
 
     def setup(self, ctx):
         from contracts.concat import concatenator_class
 
+        from geoh5py.data import CommentsData
+        from geoh5py.shared.concatenation.drillhole import ConcatenatedDrillhole
+
         idx, stranger = ctx.case
+        plain = idx == "plain-data"
+        if plain:
+            idx = (0,)
         me = Opaque("self", cls=concatenator_class())
-        holes = [Opaque(f"hole{i}") for i in range(3)]
-        for h in holes:
+        holes = [Opaque(f"hole{i}", cls=ConcatenatedDrillhole) for i in range(3)]
+        note = Opaque("comments-of-the-group", cls=CommentsData)
+        for h in holes + [note]:
             h.distinct = True
-        kept = PList(list(holes))
+        kept = PList(list(holes) + [note])
         me.attrs["_children"] = kept
+        wsrc = Opaque("workspace.remove_children")
+        wsrc.maybe_method = lambda I, a, kw: I.event("unlink", parent=a[0], children=a[1])
+        wsp = Opaque("workspace")
+        wsp.attrs["remove_children"] = wsrc
+        me.attrs["workspace"] = wsp
+        ctx.env.update(note=note, plain=plain)
         rm = Opaque("remove_entity")
         rm.maybe_method = lambda I, a, kw: I.event("remove_entity", entity=a[0], listed=[x for x in kept.items])
         me.attrs["remove_entity"] = rm
-        req = [holes[i] for i in idx]
+        req = [holes[i] for i in idx] + ([note] if plain else [])
         if stranger:
             s_ = Opaque("stranger")
             s_.distinct = True
             req.append(s_)
-        ctx.env.update(holes=holes, kept=kept, idx=idx)
+        ctx.env.update(holes=holes, kept=kept, idx=idx, me=me)
         return [me, PList(req)], {}
 
     def post(self, ctx, result):
@@ -236,10 +249,20 @@ class ConcatRemoveChildren(Contract):
         for i, h in enumerate(e["holes"]):
             if i in e["idx"]:
                 ctx.oblige(f"hole{i}-is-removed-from-the-storage-once", sum(1 for r in removed if r is h) == 1)
-                ctx.oblige(f"hole{i}-leaves-the-groups-child-list", h not in e["kept"].items, note="group.children still yields the removed hole")
+                ctx.oblige(f"hole{i}-leaves-the-groups-child-list", not any(x is h for x in list(getattr(e["me"].attrs["_children"], "items", e["me"].attrs["_children"]))), note="group.children still yields the removed hole")
             else:
-                ctx.oblige(f"hole{i}-is-kept", h in e["kept"].items and not any(r is h for r in removed))
+                ctx.oblige(f"hole{i}-is-kept", any(x is h for x in list(getattr(e["me"].attrs["_children"], "items", e["me"].attrs["_children"]))) and not any(r is h for r in removed))
         ctx.oblige("nothing-the-group-does-not-hold-is-removed", all(any(r is h for h in e["holes"]) for r in removed))
+        # plain data held by the group itself (comments, files) are not in the concatenated storage: they are unlinked in
+        # the file like the children of any group, and leave the child list
+        kept_items = list(getattr(e["me"].attrs["_children"], "items", e["me"].attrs["_children"]))
+        unl = [p for k, p in ctx.path.events if k == "unlink"]
+        if e["plain"]:
+            ctx.oblige("plain-data-of-the-group-is-unlinked-in-the-file", len(unl) == 1 and unl[0]["parent"] is e["me"] and any(x is e["note"] for x in getattr(unl[0]["children"], "items", []) or []),
+                       note="the group's own comments / files leave the in-memory list but stay linked in the file: they are back after a re-open")
+            ctx.oblige("plain-data-of-the-group-leaves-the-child-list", not any(x is e["note"] for x in kept_items))
+        else:
+            ctx.oblige("plain-data-that-was-not-named-stays", any(x is e["note"] for x in kept_items) and not unl)
 
 
 class ConcatRemoveHole(Contract):
